@@ -472,20 +472,27 @@ pub fn gen_settled(rng: &mut Rng, graceful_heavy: bool) -> E1Scn {
     let mut sigs = e1::SigAlloc::new();
     let n = rng.range(1, 7);
     let mut steps = Vec::new();
+    // one control of the scenario may carry a signal number without an OS equivalent: it must arrive as SIGTERM (15),
+    // which is then kept out of the pool
+    let mut odd: Option<i32> = if rng.chance(1, 6) { Some(*rng.pick(&[77, 0, 64, -1, 1000])) } else { None };
+    if odd.is_some() {
+        let _ = sigs.fresh();
+    }
     for _ in 0..n {
         let grace = *rng.pick(&e1::DURS[..7]);
         let k = if graceful_heavy { rng.below(14) } else { rng.below(18) };
+        let mut gsig = |sigs: &mut e1::SigAlloc| odd.take().unwrap_or_else(|| sigs.fresh());
         let op = match k {
             0 | 1 => Op::Start,
-            2 | 3 => Op::StopSig { sig: sigs.fresh(), grace },
-            4 | 5 => Op::RestartSig { sig: sigs.fresh(), grace },
-            6 | 7 => Op::TryRestartSig { sig: sigs.fresh(), grace },
+            2 | 3 => Op::StopSig { sig: gsig(&mut sigs), grace },
+            4 | 5 => Op::RestartSig { sig: gsig(&mut sigs), grace },
+            6 | 7 => Op::TryRestartSig { sig: gsig(&mut sigs), grace },
             8 => Op::Stop,
             9 => Op::Restart,
             10 => Op::TryRestart,
             11 => Op::Run,
             12 => Op::ToWait,
-            13 => Op::Signal { sig: sigs.fresh() },
+            13 => Op::Signal { sig: gsig(&mut sigs) },
             14 => Op::RunAsync { ms: *rng.pick(&e1::DURS[..6]) },
             15 => Op::SetHook { async_ms: if rng.chance(1, 2) { None } else { Some(*rng.pick(&e1::DURS[..5])) } },
             16 => Op::UnsetHook,
@@ -686,6 +693,25 @@ pub fn oracle_c06(scn: &E1Scn, d: &Digest, stats: &mut Stats) -> Vec<Violation> 
             }
             if matches!(st.op, Op::TryRestartSig { .. } | Op::TryRestart) && !running {
                 stats.hit("probe:try-restart-on-idle");
+            }
+            // (1c) a signal-carrying control on a running job reaches the child (mapped to SIGTERM when the
+            // requested signal has no OS equivalent), at the instant it was sent
+            let carried = match st.op {
+                Op::StopSig { sig, .. } | Op::RestartSig { sig, .. } | Op::TryRestartSig { sig, .. } | Op::Signal { sig } => Some(sig),
+                _ => None,
+            };
+            if let (Some(sig), true) = (carried, running) {
+                let os = expected_os_signal(sig);
+                if uses.get(&os).map(|v| v.len()) == Some(1) {
+                    let got = d.children.iter().any(|c| c.signals.iter().any(|s| s.2 == os && s.0 == t));
+                    if !got {
+                        vs.push(Violation::new(
+                            "signal-not-delivered",
+                            st.op.name(),
+                            format!("op {id} ({}) sent at t={t} with signal {sig} (OS signal {os}) on a running job: no child received it", st.op.name()),
+                        ));
+                    }
+                }
             }
         }
     }
